@@ -16,6 +16,11 @@ pub trait Target {
     fn reset(&mut self) -> Value;
     /// applies one operation; returns the observation afterwards
     fn apply(&mut self, op: &Value) -> Value;
+    /// does the real observation conform to the model's?  (equality unless a model leaves
+    /// something open on purpose)
+    fn conforms(&self, expected: &Value, got: &Value) -> bool {
+        expected == got
+    }
 }
 
 struct Edge {
@@ -149,7 +154,7 @@ pub fn replay(g: &Graph, t: &mut dyn Target, max_report: usize) -> ReplayReport 
             }
             for (i, op) in ops.iter().enumerate() {
                 let o = t.apply(op);
-                if &o != expected[i] {
+                if !t.conforms(expected[i], &o) {
                     return Some((i + 1, expected[i].clone(), o));
                 }
             }
